@@ -154,7 +154,8 @@ Next == IF Family = "chars" THEN Len(txt) < N /\ lay' = lay /\ \E i \in 1..Len(C
         ELSE /\ lay.k = -1
              /\ \E t \in {u \in FamilyTexts : Bucket(u) = lay.b} : txt' = t /\ lay' = Lay0
 
-DecAp(lexeme) == "scale"          \* the reader is transcribed exactly (Decimal.tla, DecFromStr): value AND scale are compared
+\* value AND scale are compared unless the literal has more digits than the type holds (then: within one unit of the last place)
+DecAp(lexeme) == IF DecFromStr(Tail(lexeme)).exact THEN "scale" ELSE "dec1ulp"
 
 Complete == Family # "layout" \/ lay.k = Len(LayoutBases[lay.b])
 Result == LET l == Lex(txt) IN
